@@ -1348,8 +1348,10 @@ class Explorer:
             self._add(lift_bool(cond))
         return ok
 
-    def prove(self, cond, label, info=None, using=None, soft=False, abstract=None):
+    def prove(self, cond, label, info=None, using=None, soft=False, abstract=None, sat_first=False):
         """obligation: under the current path condition `cond` holds for all values.
+        sat_first: the caller expects a counterexample to be likely (e.g. two structurally different terms that should be equal): look for
+        a model with pinned inputs before spending the proof budget.
         using=[facts]: modular step - first try to derive cond from these facts alone (each must already be part of the
         path condition or a proved lemma; weakening the hypotheses is sound for an unsat answer)"""
         if abstract is not None and not isinstance(cond, bool):
@@ -1418,7 +1420,15 @@ class Explorer:
         else:
             neg = z3.Not(lift_bool(cond))
         _t0 = time.time()
-        r, msolver = self._decide(neg)
+        r = None
+        if sat_first and not isinstance(cond, bool):
+            r2, s2 = self._pinned_model_search(neg, rounds=12)
+            if r2 == 'sat':
+                r, msolver = 'sat', s2
+                self.stats.q_sat += 1
+                info = ((info + ' ') if isinstance(info, str) else '') + '[model found with inputs pinned]'
+        if r is None:
+            r, msolver = self._decide(neg)
         self.stats.label_s[label] = self.stats.label_s.get(label, 0.0) + time.time() - _t0
         if r == 'unsat':
             self.stats.proved[label] = self.stats.proved.get(label, 0) + 1
@@ -1754,7 +1764,7 @@ class FloatCtx:
     def lemma(self, cond, label, using=None):
         return self.prove(cond, 'lemma:' + label)
 
-    def prove(self, cond, label, info=None, using=None, soft=False, abstract=None):
+    def prove(self, cond, label, info=None, using=None, soft=False, abstract=None, sat_first=False):
         if bool(cond):
             self.passed.append(label)
             return True
@@ -1876,6 +1886,8 @@ class _Math:
         """algebraic function as a fresh variable constrained by its defining polynomial (keeps queries in pure NRA);
         functional consistency follows from uniqueness of the root"""
         t = lift_real(x)
+        if getattr(self, 'light', False) and name in self.F:
+            return R(self.F[name](t))       # plain uninterpreted application (functional consistency only)
         seen = self.seen.setdefault(name, {})
         key = t.get_id()
         if key not in seen:
